@@ -127,7 +127,14 @@ func Edit(t *rapid.T, s string) string {
 		pos = rapid.IntRange(0, len(s)-1).Draw(t, "epos")
 	}
 	repl := ""
-	switch h.Pick(t, "rk", 3, 2, 1) {
+	switch h.Pick(t, "rk", 3, 2, 1, 1) {
+	case 3: // the character with its "case bit" flipped or 32 above/below, whatever it is: a digit becomes a
+		// control byte ('7' -> 0x17), a letter changes case, punctuation moves to another block
+		if len(s) > 0 {
+			c := s[pos]
+			repl = string([]byte{[]byte{c ^ 0x20, c - 0x20, c + 0x20, c ^ 0x40}[rapid.IntRange(0, 3).Draw(t, "bitk")]})
+			return s[:pos] + repl + s[pos+1:]
+		}
 	case 0:
 		repl = h.OneOf(t, "host", Hostile...)
 	case 1:
